@@ -47,19 +47,19 @@ func ZZ_C01_step_load_imm_jump_ind() { zzStepLoadImmJumpInd(false) }
 func ZZ_C02_step_load_imm_jump_ind() { zzStepLoadImmJumpInd(true) }
 
 // ZZ_C02_diff_formats: the two engines side by side. One instruction of a representative
-// opcode per operand format (no-argument, one immediate, extended immediate, two immediates,
-// one offset, register+immediate, register+two immediates, register+immediate+offset, two
-// registers, two registers+immediate, two registers+offset, two registers+two immediates,
-// three registers) decoded from arbitrary operand bytes with every skip length, executed by
+// opcode per operand format with immediates or offsets (one immediate, extended immediate, two
+// immediates, one offset, register+immediate, register+two immediates,
+// register+immediate+offset, two registers+immediate, two registers+offset, two registers+two
+// immediates; the register-only formats have their own step harnesses) decoded from arbitrary operand bytes with every skip length, executed by
 // the pre-decoded engine and by the single-step engine from the same arbitrary registers on
 // an empty memory: same exit reason (with its argument), same next counter, same registers,
-// same gas. Bound: 12 bytes from the opcode to the end of the code.
+// same gas. Bound: 9 bytes from the opcode to the end of the code.
 //zz:workers=16 paths=60000 conccap=260
 func ZZ_C02_diff_formats() {
-	ops := []byte{0, 10, 20, 30, 40, 51, 70, 80, 100, 120, 170, 180, 190}
+	ops := []byte{10, 20, 30, 40, 51, 70, 80, 120, 170, 180}
 	op := ops[zzvt.Range("format", 0, len(ops)-1)]
 	pc := 1
-	w := zzWindow(pc+12, pc, op)
+	w := zzWindow(pc+9, pc, op)
 	if op == 40 || op == 80 || op == 170 {
 		// static branches look at the opcode stored at their target: keep the bytes behind the
 		// first five operand bytes concrete (trap), so that only targets inside the operands
